@@ -27,7 +27,7 @@ ALPHABET = (["connect-ok", "connect-pubkey", "connect-refused", "connect-nokeys"
             + ["push-dir", "stream-create", "stream-next"] + ["connect-keytimeout", "pull-bytesio", "push-bytesio"])
 CONNECT_FAILS = ["connect-refused", "connect-nokeys", "connect-silent", "connect-keytimeout", "connect-stls"]
 NBASE = len(ALPHABET)        # the exhaustive enumeration runs over these; the symbols below appear in directed and random sequences only
-EXTRA = ["connect-stls", "pull-newdir", "pull-newdir-empty", "pushdir-empty", "shell-emptycmd", "exec_out-emptycmd", "streaming_shell-emptycmd", "shell-blankcmd", "connect-maxdata0", "push-fail"]
+EXTRA = ["connect-stls", "pull-newdir", "pull-newdir-empty", "pushdir-empty", "shell-emptycmd", "exec_out-emptycmd", "streaming_shell-emptycmd", "shell-blankcmd", "connect-maxdata0", "push-fail", "connect-oddbanner", "reboot-fastboot"]
 ALPHABET = ALPHABET + EXTRA
 
 
@@ -48,7 +48,7 @@ def gen_cases(tier, seed):
             directed.append(["connect-pubkey", op, op, gone, op, "connect-ok", op])
     for x in EXTRA:
         directed += [[x], ["connect-ok", x], ["connect-ok", "close", x], ["connect-pubkey", x, "close", x]] + [["connect-ok", g, x] for g in CONNECT_FAILS]
-        directed += [["connect-ok", x, "shell", "stat"], ["connect-ok", "connect-maxdata0", x, "shell"], ["connect-maxdata0", x, "push", "close", "shell"]]
+        directed += [[x, "shell"], [x, "reboot-fastboot", "shell"], ["connect-ok", x, "shell", "stat"], ["connect-ok", "connect-maxdata0", x, "shell"], ["connect-maxdata0", x, "push", "close", "shell"]]
     for impl in ("sync", "async"):
         for d in directed:
             yield {"kind": "directed", "impl": impl, "seq": [A[x] for x in d]}
@@ -68,6 +68,9 @@ class StubSigner(object):
     def GetPublicKey(self):
         return b"QUJD stub@verif"
 
+
+DEFAULT_BANNER = b"device::ro.product.name=sim;"
+ODD_BANNERS = [b"", b"device\0", b"device::ro.boot.cmdline=console=ttyS0;features=cmd\0", b"\xff\xfe::\x00", b"recovery", b"device::;;=;\0"]
 
 STEP_SPECS = {
     "shell": {"op": "shell", "cmd": "s", "decode": True, "cls": "utf8", "seed": "c13a", "take": None},
@@ -117,7 +120,9 @@ def run_sequence(impl, seq, stats, tmp):
                 sess.core.refuse_connect = None
                 sim.maxdata = 0 if name == "connect-maxdata0" else 4096       # (a device may announce maxdata 0: the connection is still a connection)
                 kw = {"transport_timeout_s": 1.0, "read_timeout_s": 1.0}
-                expect_ok = name in ("connect-ok", "connect-pubkey", "connect-maxdata0")
+                expect_ok = name in ("connect-ok", "connect-pubkey", "connect-maxdata0", "connect-oddbanner")
+                # (whatever the device writes into its CNXN banner -- nothing, no colons, '=' inside a value, bytes that are not text -- the handshake is complete)
+                sim.banner = DEFAULT_BANNER if name != "connect-oddbanner" else ODD_BANNERS[(i + len(seq) + sum(seq)) % len(ODD_BANNERS)]
                 cb_seen = []
                 if name == "connect-refused":
                     sess.core.refuse_connect = ConnectionRefusedError(111, "Connection refused (deliberate)")
@@ -247,6 +252,9 @@ def run_sequence(impl, seq, stats, tmp):
                     if viol:
                         break
                     continue
+                fastboot = empty == "fastboot"
+                if fastboot:
+                    empty = ""
                 if op == "pushdir":
                     op, isdir_empty = "push", True
                 else:
@@ -276,7 +284,7 @@ def run_sequence(impl, seq, stats, tmp):
                     if op in ("shell", "exec_out", "streaming_shell"):
                         out = sess.call(op, "x")
                     elif op in ("root", "reboot"):
-                        out = sess.call(op)
+                        out = sess.call(op, **({"fastboot": True} if fastboot else {}))
                     elif op in ("list", "stat"):
                         out = sess.call(op, path)
                     elif op == "pull" and newdir:
@@ -309,6 +317,8 @@ def run_sequence(impl, seq, stats, tmp):
                                 shutil.rmtree(pth) if os.path.isdir(pth) else os.unlink(pth)
                 else:
                     spec = dict(STEP_SPECS[op])
+                    if fastboot:
+                        spec["fastboot"] = True
                     if bio:
                         spec["dest" if op == "pull" else "src"] = "bytesio"
                     out, v = runner.run_step(i, spec)
